@@ -4,6 +4,7 @@ import TracklibVerif.Lemmas.SeqFeat
 import TracklibVerif.Lemmas.SeqRadix
 import TracklibVerif.Lemmas.SeqSession
 import TracklibVerif.Lemmas.SeqSlice
+import TracklibVerif.Lemmas.ObsTime
 /-! # C04 — sequence operations on a track select exactly the designated observations
 
 Property theorems only (helper lemmas: `Lemmas/Seq*.lean`). The model is `Model/Seq.lean` (the operators)
@@ -594,35 +595,40 @@ theorem getitemSlice_simple (tr : Track) (a b : Nat) :
     · rw [if_pos hb, hn, if_neg (by omega)]
     · rw [if_neg hb, if_neg (by omega)]
 
-/-! ## `sortRadix` -/
+/-! ## `sortRadix` (after fix b323645: the year buckets span the earliest to the latest year of the track) -/
 
-/-- the six key functions of `sortRadix`, most significant first: `year-1970`, `month-1`, `day-1`, `hour`, `min`,
+/-- the six key functions of `sortRadix`, most significant first: `year`, `month-1`, `day-1`, `hour`, `min`,
 `sec*1000+ms` of the observation at a position -/
 def radixKeys (digits : Nat → List Int) : List (Nat → Int) :=
   [5, 4, 3, 2, 1, 0].map (fun k => fun id => (digits id).getD k 0)
 
-/-- `sortRadix()` when every digit is inside its buckets (`0 ≤ sec*1000+ms < 60000`, `min < 60`, `hour < 24`,
-`1 ≤ day ≤ 31`, `1 ≤ month ≤ 12`, `1970 ≤ year ≤ 2069`): no `IndexError`; the result is the same observations
-(a permutation), ordered lexicographically by (year, month, day, hour, min, sec·1000+ms) — which is the order
-of the instants, C03 — and observations with equal timestamps keep their order (`i < j`): a stable sort. -/
+/-- `sortRadix()` when the five lower digits are inside their buckets (`0 ≤ sec*1000+ms < 60000`, `min < 60`,
+`hour < 24`, `1 ≤ day ≤ 31`, `1 ≤ month ≤ 12`) — the YEARS ARE ARBITRARY integers (before 1970, after 2069, both in
+one track): no `IndexError`; the result is the same observations (a permutation), ordered lexicographically by
+(year, month, day, hour, min, sec·1000+ms), and observations with equal keys keep their order (`i < j`): a
+stable sort. The empty track is included (no year bucket at all). -/
 theorem sortRadix_spec (l : List α) (digits : Nat → List Int)
-    (hd : ∀ i, i < l.length → ∀ k, k < 6 → 0 ≤ (digits i).getD k 0 ∧ (digits i).getD k 0 < (radixBuckets.getD k 0 : Nat)) :
+    (hd : ∀ i, i < l.length → ∀ k, k < 5 → 0 ≤ (digits i).getD k 0 ∧ (digits i).getD k 0 < (radixBuckets.getD k 0 : Nat)) :
     ∃ ids r, sortRadixIds digits l.length = some ids ∧ sortRadix l digits = some r ∧
       ids.Perm (List.range l.length) ∧ r = ids.filterMap (fun i => l[i]?) ∧ r.Perm l ∧
       ids.Pairwise (LexLe (· < ·) (radixKeys digits)) := by
-  have hk : ∀ p ∈ (radixBuckets.zipIdx.map (fun p => ((p.1, fun id => (digits id).getD p.2 0) : Nat × (Nat → Int)))),
+  have hk : ∀ p ∈ (radixBuckets.zipIdx.map (fun p => ((p.1, fun id => (digits id).getD p.2 0) : Nat × (Nat → Int))) ++
+        [yearPass digits l.length]),
       ∀ i ∈ List.range l.length, 0 ≤ p.2 i ∧ p.2 i < (p.1 : Int) := by
     intro p hp i hi
     have hi' := List.mem_range.mp hi
-    simp only [radixBuckets, List.zipIdx_cons, List.zipIdx_nil, List.map_cons, List.map_nil, List.mem_cons,
-      List.not_mem_nil, or_false] at hp
-    rcases hp with rfl | rfl | rfl | rfl | rfl | rfl
-    · exact hd i hi' 0 (by omega)
-    · exact hd i hi' 1 (by omega)
-    · exact hd i hi' 2 (by omega)
-    · exact hd i hi' 3 (by omega)
-    · exact hd i hi' 4 (by omega)
-    · exact hd i hi' 5 (by omega)
+    rcases List.mem_append.mp hp with hp | hp
+    · simp only [radixBuckets, List.zipIdx_cons, List.zipIdx_nil, List.map_cons, List.map_nil, List.mem_cons,
+        List.not_mem_nil, or_false] at hp
+      rcases hp with rfl | rfl | rfl | rfl | rfl
+      · exact hd i hi' 0 (by omega)
+      · exact hd i hi' 1 (by omega)
+      · exact hd i hi' 2 (by omega)
+      · exact hd i hi' 3 (by omega)
+      · exact hd i hi' 4 (by omega)
+    · have : p = yearPass digits l.length := by simpa using hp
+      subst this
+      exact yearPass_inRange digits l.length i hi'
   obtain ⟨ids, e, hp, hs⟩ := runPasses_spec (· < ·) _ [] (List.range l.length) hk
     (by simpa [LexLe] using List.pairwise_lt_range (n := l.length))
   have hin : ∀ i ∈ ids, i < l.length := fun i hi => List.mem_range.mp (hp.mem_iff.mp hi)
@@ -634,12 +640,18 @@ theorem sortRadix_spec (l : List α) (digits : Nat → List Int)
   · have := hp.filterMap (fun i => l[i]?)
     rw [filterMap_range_getElem?] at this
     exact this
-  · simpa [radixKeys, radixBuckets] using hs
+  · have hs' : ids.Pairwise (LexLe (· < ·)
+        ((fun id => yearDigit digits id - minD ((List.range l.length).map (yearDigit digits)) 0) ::
+          [4, 3, 2, 1, 0].map (fun k => fun id => (digits id).getD k 0))) := by
+      simpa [radixBuckets, yearPass] using hs
+    refine hs'.imp ?_
+    intro i j h
+    exact (lexLe_shift (· < ·) (yearDigit digits) _ _ i j).mp h
 
 /-- `sortRadix()` sorts by time: if the lexicographic order of the digits implies the order of the timestamps
 (C03: the field-wise order of `ObsTime` is the order of the epoch instants), the result is non-decreasing in time. -/
 theorem sortRadix_sorted (l : List Obs) (digits : Nat → List Int)
-    (hd : ∀ i, i < l.length → ∀ k, k < 6 → 0 ≤ (digits i).getD k 0 ∧ (digits i).getD k 0 < (radixBuckets.getD k 0 : Nat))
+    (hd : ∀ i, i < l.length → ∀ k, k < 5 → 0 ≤ (digits i).getD k 0 ∧ (digits i).getD k 0 < (radixBuckets.getD k 0 : Nat))
     (hkey : ∀ i j (a b : Obs), l[i]? = some a → l[j]? = some b → LexLe (· < ·) (radixKeys digits) i j → a.time ≤ b.time) :
     ∃ r, sortRadix l digits = some r ∧ r.Perm l ∧ r.Pairwise (fun a b => a.time ≤ b.time) := by
   obtain ⟨ids, r, _, h, _, hr, hperm, hs⟩ := sortRadix_spec l digits hd
@@ -648,6 +660,103 @@ theorem sortRadix_sorted (l : List Obs) (digits : Nat → List Int)
   refine List.Pairwise.filterMap _ ?_ hs
   intro i j hij a ha b hb
   exact hkey i j a b ha hb hij
+
+/-- the digits `sortRadix` reads from an `ObsTime` (C03's `Stamp`), least significant first -/
+def stampDigits (t : TV.ObsTime.Stamp) : List Int :=
+  [(t.d.sec : Int) * 1000 + t.ms, t.d.min, t.d.hour, (t.d.day : Int) - 1, (t.d.month : Int) - 1, t.d.year]
+
+/-- the lexicographic order of the digits of two well-formed timestamps is the order of their epoch instants -/
+theorem lex_stamps (a b : TV.ObsTime.Stamp) (ha : TV.ObsTime.WFs a) (hb : TV.ObsTime.WFs b) (i j : Nat)
+    (keys : Nat → List Int) (hi : keys i = stampDigits a) (hj : keys j = stampDigits b)
+    (h : LexLe (· < ·) (radixKeys keys) i j) :
+    TV.ObsTime.toAbsMs a < TV.ObsTime.toAbsMs b ∨ (TV.ObsTime.toAbsMs a = TV.ObsTime.toAbsMs b ∧ i < j) := by
+  have ha2 := ha.2
+  have hb2 := hb.2
+  simp only [radixKeys, List.map_cons, List.map_nil, LexLe, hi, hj, stampDigits, List.getD_cons_succ,
+    List.getD_cons_zero] at h
+  have hlt : TV.ObsTime.ltS a b = true → TV.ObsTime.toAbsMs a < TV.ObsTime.toAbsMs b :=
+    (TV.ObsTime.ltS_iff a b ha hb).mp
+  rcases h with h | ⟨e1, h⟩
+  · left; apply hlt
+    have : a.d.year ≠ b.d.year := by omega
+    have h' : a.d.year < b.d.year := by omega
+    simp [TV.ObsTime.ltS, this, h']
+  have e1' : a.d.year = b.d.year := by omega
+  rcases h with h | ⟨e2, h⟩
+  · left; apply hlt
+    have : a.d.month ≠ b.d.month := by omega
+    have h' : a.d.month < b.d.month := by omega
+    simp [TV.ObsTime.ltS, e1', this, h']
+  have e2' : a.d.month = b.d.month := by omega
+  rcases h with h | ⟨e3, h⟩
+  · left; apply hlt
+    have : a.d.day ≠ b.d.day := by omega
+    have h' : a.d.day < b.d.day := by omega
+    simp [TV.ObsTime.ltS, e1', e2', this, h']
+  have e3' : a.d.day = b.d.day := by omega
+  rcases h with h | ⟨e4, h⟩
+  · left; apply hlt
+    have : a.d.hour ≠ b.d.hour := by omega
+    have h' : a.d.hour < b.d.hour := by omega
+    simp [TV.ObsTime.ltS, e1', e2', e3', this, h']
+  have e4' : a.d.hour = b.d.hour := by omega
+  rcases h with h | ⟨e5, h⟩
+  · left; apply hlt
+    have : a.d.min ≠ b.d.min := by omega
+    have h' : a.d.min < b.d.min := by omega
+    simp [TV.ObsTime.ltS, e1', e2', e3', e4', this, h']
+  have e5' : a.d.min = b.d.min := by omega
+  rcases h with h | ⟨e6, h⟩
+  · left; apply hlt
+    by_cases hs : a.d.sec = b.d.sec
+    · have h' : a.ms < b.ms := by omega
+      simp [TV.ObsTime.ltS, e1', e2', e3', e4', e5', hs, h']
+    · have h' : a.d.sec < b.d.sec := by omega
+      simp [TV.ObsTime.ltS, e1', e2', e3', e4', e5', hs, h']
+  · right
+    have e6' : a.d.sec = b.d.sec := by omega
+    have e7' : a.ms = b.ms := by omega
+    refine ⟨?_, h⟩
+    simp [TV.ObsTime.toAbsMs, TV.ObsTime.toAbsSec, e1', e2', e3', e4', e5', e6', e7']
+
+/-- For EVERY track of well-formed timestamps (C03's `WFs`: a calendar date from 1970 on, no upper bound on the
+year) `sortRadix` is a stable sort by time: no exception, the same observations, non-decreasing epoch instants, and
+observations with the same instant keep their order. -/
+theorem sortRadix_stamps (l : List α) (stamp : α → TV.ObsTime.Stamp) (hwf : ∀ x ∈ l, TV.ObsTime.WFs (stamp x)) :
+    ∃ (ids : List Nat) (r : List α), sortRadix l (fun i => (l[i]?.map (fun x => stampDigits (stamp x))).getD []) = some r ∧
+      ids.Perm (List.range l.length) ∧ r = ids.filterMap (fun i => l[i]?) ∧ r.Perm l ∧
+      r.Pairwise (fun a b => TV.ObsTime.toAbsMs (stamp a) ≤ TV.ObsTime.toAbsMs (stamp b)) ∧
+      ids.Pairwise (fun i j => ∀ a b, l[i]? = some a → l[j]? = some b →
+        TV.ObsTime.toAbsMs (stamp a) < TV.ObsTime.toAbsMs (stamp b) ∨
+          (TV.ObsTime.toAbsMs (stamp a) = TV.ObsTime.toAbsMs (stamp b) ∧ i < j)) := by
+  have hdig : ∀ (i : Nat) (x : α), l[i]? = some x →
+      (l[i]?.map (fun x => stampDigits (stamp x))).getD [] = stampDigits (stamp x) := by
+    intro i x h; simp [h]
+  have hd : ∀ i : Nat, i < l.length → ∀ k, k < 5 →
+      0 ≤ ((l[i]?.map (fun x => stampDigits (stamp x))).getD []).getD k 0 ∧
+      ((l[i]?.map (fun x => stampDigits (stamp x))).getD []).getD k 0 < (radixBuckets.getD k 0 : Nat) := by
+    intro i hi k hk
+    have hx : l[i]? = some l[i] := List.getElem?_eq_getElem hi
+    rw [hdig i l[i] hx]
+    obtain ⟨⟨_, hm1, hm2, hd1, hd2, hh, hmi, hs⟩, hms⟩ := hwf l[i] (List.getElem_mem hi)
+    have hmd := TV.ObsTime.monthDays_le (stamp l[i]).d.year ((stamp l[i]).d.month - 1)
+    have : k = 0 ∨ k = 1 ∨ k = 2 ∨ k = 3 ∨ k = 4 := by omega
+    rcases this with rfl | rfl | rfl | rfl | rfl <;>
+      simp only [stampDigits, radixBuckets, List.getD_cons_succ, List.getD_cons_zero] <;> omega
+  obtain ⟨ids, r, _, h, hp, hr, hperm, hs⟩ := sortRadix_spec l _ hd
+  have hstab : ids.Pairwise (fun i j => ∀ a b, l[i]? = some a → l[j]? = some b →
+      TV.ObsTime.toAbsMs (stamp a) < TV.ObsTime.toAbsMs (stamp b) ∨
+        (TV.ObsTime.toAbsMs (stamp a) = TV.ObsTime.toAbsMs (stamp b) ∧ i < j)) := by
+    refine hs.imp ?_
+    intro i j hij a b hia hjb
+    exact lex_stamps (stamp a) (stamp b) (hwf a (List.mem_of_getElem? hia)) (hwf b (List.mem_of_getElem? hjb)) i j _
+      (hdig i a hia) (hdig j b hjb) hij
+  refine ⟨ids, r, h, hp, hr, hperm, ?_, hstab⟩
+  rw [hr]
+  refine List.Pairwise.filterMap _ ?_ hstab
+  intro i j hij a ha b hb
+  have := hij a b ha hb
+  omega
 
 /-! ## T1 — the dichotomy stays in range and terminates -/
 
@@ -871,13 +980,21 @@ example : let own : Nat → String → Int := fun tag nm => if nm = "f" then 10 
         have e2 : ("g" == nm) = false := by simp [Ne.symm h2]
         simp [e1, e2] at h
 /-- `sortRadix`: the digits of 2000-01-01 00:00:00.500 are inside their buckets (hypothesis of `sortRadix_spec`) -/
-example : ∀ k, k < 6 → 0 ≤ ([500, 0, 0, 0, 0, 30] : List Int).getD k 0 ∧
-    ([500, 0, 0, 0, 0, 30] : List Int).getD k 0 < (radixBuckets.getD k 0 : Nat) := by decide
+example : ∀ k, k < 5 → 0 ≤ ([500, 0, 0, 0, 0, 2000] : List Int).getD k 0 ∧
+    ([500, 0, 0, 0, 0, 2000] : List Int).getD k 0 < (radixBuckets.getD k 0 : Nat) := by decide
+/-- the year pass of the two regression witnesses of fix b323645: 2070 and 2000 get the buckets 70 and 0 of 71;
+1969, 2000, 1971 get 0, 31, 2 of 32; the empty track has no year bucket -/
+example : (yearPass (fun i => [[0, 0, 0, 0, 0, 2070], [0, 0, 0, 0, 0, 2000]].getD i []) 2).1 = 71 ∧
+    (yearPass (fun i => [[0, 0, 0, 0, 0, 1969], [0, 0, 0, 0, 0, 2000], [0, 0, 0, 0, 0, 1971]].getD i []) 3).1 = 32 ∧
+    (yearPass (fun _ => []) 0).1 = 0 := by decide +kernel
+/-- 2000-02-29 12:00:00.500 is a well-formed timestamp (hypothesis of `sortRadix_stamps`) -/
+example : TV.ObsTime.WFs ⟨⟨2000, 2, 29, 12, 0, 0⟩, 500⟩ := by
+  refine ⟨⟨by decide, by decide, by decide, by decide, by decide, by decide, by decide, by decide⟩, by decide⟩
 /-- two passes on small buckets (least significant first): the second key decides, the first breaks its ties,
 equal pairs keep their order -/
 example : runPasses [(3, fun i => [2, 0, 2, 1].getD i 0), (2, fun i => [1, 1, 0, 1].getD i 0)] [0, 1, 2, 3] = some [2, 1, 3, 0] := by
   decide +kernel
-/-- a key outside the buckets (a year after 2069): `IndexError`, as in the code -/
-example : bucketPass 100 (fun _ => 100) [0] = none := by decide +kernel
+/-- a key outside the buckets (a month 13): `IndexError`, as in the code -/
+example : bucketPass 12 (fun _ => 12) [0] = none := by decide +kernel
 
 end TV.C04
